@@ -124,6 +124,7 @@ func c05RenameDuringClose(c *ev.Ctx) {
 func runC05(c *ev.Ctx) {
 	c05RenameDuringClose(c)
 	c05RemoveDuringRename(c)
+	c05AttachWithoutMode(c)
 	c05Sequences(c)
 	c05CutPoints(c)
 	c05InFlight(c)
@@ -678,5 +679,57 @@ func c05RemoveDuringRename(c *ev.Ctx) {
 		w.conns[1].p.Close()
 		c05Final(c, w.fs, w.srv, "remove-during-rename "+variant, det)
 		c.Case("remove-during-rename:"+variant, true)
+	}
+}
+
+// (9) requests whose backend call SUCCEEDS but tells less than the server
+// needs: a Tattach (named or not) or a walk whose GetAttr does not report the
+// mode is refused by the server - and the File obtained for it is closed like
+// any other.
+func c05AttachWithoutMode(c *ev.Ctx) {
+	for i, variant := range []string{"attach", "attach-named", "walk", "walkgetattr"} {
+		if !c.Mine(i + 6) {
+			continue
+		}
+		hungFlag = false
+		c.Begin("C05 success without mode: " + variant)
+		fs := concTree()
+		srv := p9.NewServer(fs)
+		s, vr := newSessOn(srv, 1<<16, v7, nil)
+		if !vr.OK {
+			c.Inconclusive("attach-without-mode setup")
+			s.P.Close()
+			continue
+		}
+		var res rawpeer.Result
+		switch variant {
+		case "attach":
+			fs.SetNoMode(1)
+			res = s.attach(0, "")
+		case "attach-named":
+			fs.SetNoMode(3)
+			res = s.attach(0, "a/b")
+		default:
+			if s.attach(0, "").Errno() != 0 {
+				c.Inconclusive("attach-without-mode setup")
+				s.P.Close()
+				continue
+			}
+			fs.SetNoMode(2)
+			if variant == "walk" {
+				res = s.walk(0, 1, "a", "b", "f")
+			} else {
+				res = s.walkgetattr(0, 1, "a", "b", "f")
+			}
+		}
+		fs.SetNoMode(0)
+		det := map[string]any{"scenario": variant, "reply": res.Msg.String()}
+		if !res.OK {
+			hang(c, res.Out, res.Dump, "C05:request-unanswered:success-without-mode:"+variant, det)
+		}
+		out, dump := s.P.Close()
+		hang(c, out, dump, "C05:Handle-does-not-return:success-without-mode:"+variant, det)
+		c05Final(c, fs, srv, "success-without-mode "+variant, det)
+		c.Case("success-without-mode:"+variant, true)
 	}
 }
